@@ -53,14 +53,24 @@ RespIdForms == {"byName", "byKey"}
 Regions == {"none", "tbs", "sig", "cert", "wrapper"}
 CertArgs == {"nil", "match", "mismatch"}       \* the `cert` argument: absent, serial equal to the response's, different serial
 
-Configs == [signer : Signers, respId : RespIdForms, status : Statuses, issuerGiven : BOOLEAN,
-            issuerSelfSigned : BOOLEAN, certArg : CertArgs, region : Regions]
+(* Impersonation: a party that does not hold the issuer's key copies every identity attribute of the issuer short of the key:
+   the subject DN (and, for a certificate issued by an impostor CA, hence the issuer DN), the subject / authority key
+   identifiers, the serial number -- or all of them.  The attributes travel in `looks` (the certificate the verifier sees:
+   the embedded one, or for "wrongissuer" the signer's own CA certificate, which is not even sent).  Nothing in the decision
+   may depend on them: acceptance depends on the issuer's KEY only (invariant IdentityIrrelevant). *)
+Impersonations == {"none", "subject", "keyids", "serial", "all"}
+Impostors == {"selfsigned", "delegated-other", "wrongissuer"}        \* the signer configurations that can impersonate
+BaseConfigs == [signer : Signers, respId : RespIdForms, status : Statuses, issuerGiven : BOOLEAN,
+                issuerSelfSigned : BOOLEAN, certArg : CertArgs, region : Regions, imp : {"none"}]
+ImpConfigs == [signer : Impostors, respId : {"byName"}, status : {"good"}, issuerGiven : BOOLEAN,
+               issuerSelfSigned : BOOLEAN, certArg : CertArgs, region : {"none", "tbs"}, imp : Impersonations \ {"none"}]
+Configs == BaseConfigs \cup ImpConfigs
 
 VARIABLES cfg, resp, res, phase
 vars == <<cfg, resp, res, phase>>
 
 NoResp == [tbs |-> [ver |-> 0, status |-> "-", respId |-> "-", serial |-> 0], sig |-> [by |-> "-", over |-> 0, intact |-> TRUE],
-           cert |-> NoCert, wrapperIntact |-> TRUE]
+           cert |-> NoCert, wrapperIntact |-> TRUE, looks |-> "none"]
 NoRes == [d |-> "-", status |-> "-", respId |-> "-", serial |-> 0, hasCert |-> FALSE]
 
 Init == /\ cfg \in Configs
@@ -72,7 +82,8 @@ Init == /\ cfg \in Configs
 Create == /\ phase = "start"
           /\ resp' = [tbs |-> [ver |-> 0, status |-> cfg.status, respId |-> cfg.respId, serial |-> 7],
                       sig |-> [by |-> SigKey(cfg.signer), over |-> 0, intact |-> TRUE],
-                      cert |-> Embedded(cfg.signer, cfg.issuerSelfSigned), wrapperIntact |-> TRUE]
+                      cert |-> Embedded(cfg.signer, cfg.issuerSelfSigned), wrapperIntact |-> TRUE,
+                      looks |-> cfg.imp]          \* identity attributes the signer's certificate copies from the issuer
           /\ phase' = "created"
           /\ UNCHANGED <<cfg, res>>
 
@@ -143,6 +154,10 @@ AcceptExact == (Parsed /\ cfg.issuerGiven /\ cfg.region = "none" /\ cfg.certArg 
 \* issuer = nil: the issuer's signature is not checked (documented); an embedded certificate's key still has to verify the response
 NilIssuerUnchecked == (Parsed /\ ~cfg.issuerGiven /\ cfg.region = "none" /\ cfg.certArg # "mismatch") =>
                         (res.d = "accept" <=> (resp.cert.present => Verifies(resp.cert.key, resp)))
+\* acceptance depends on the issuer's KEY only: erasing (or adding) copied identity attributes never changes the decision,
+\* and an impostor is never accepted when an issuer is given, whatever it copies
+IdentityIrrelevant == Parsed => \A l \in Impersonations : Decision([resp EXCEPT !.looks = l], cfg) = res.d
+ImpostorRejected == (Parsed /\ cfg.issuerGiven /\ cfg.signer \in Impostors) => res.d # "accept"
 \* serial must match when a cert is given
 SerialMatch == (Parsed /\ cfg.certArg = "mismatch" /\ cfg.region \in {"none", "sig", "cert"}) => res.d # "accept"
 \* round trip of the template fields on acceptance
